@@ -56,7 +56,7 @@ func (p *prop) Run(line string) core.Outcome {
 	}
 	f := strings.Split(line, " ")
 	switch f[0] {
-	case "adapt", "madapt", "perm", "eqv", "leak", "site", "hist", "argidx", "bind", "rename", "sopts", "lnp", "hp", "dbind", "nr":
+	case "adapt", "madapt", "perm", "eqv", "leak", "site", "hist", "argidx", "bind", "rename", "sopts", "lnp", "hp", "dbind", "nr", "kbind":
 		// cases that run the adapter can die of a fatal (unrecoverable) Go error
 		switch noteCase(line) {
 		case "crash":
@@ -116,6 +116,10 @@ func (p *prop) Run(line string) core.Outcome {
 	case "rename":
 		if len(f) == 3 {
 			return runRename(line, f[1], f[2])
+		}
+	case "kbind":
+		if len(f) == 2 {
+			return runKbind(line, f[1])
 		}
 	case "nr":
 		if len(f) == 3 {
